@@ -271,6 +271,11 @@ class Beh:
     def metabig(self, o):
         self.add({"k": "metabig", "o": o})
 
+    def tu(self, m, **kw):
+        e = {"k": "tu", "m": m}
+        e.update(kw)
+        self.add(e)
+
     def spstd(self, shape, lens):
         self.add({"k": "spstd", "shape": shape, "lens": list(lens)})
 
